@@ -1,6 +1,6 @@
 (* C17/Harness.v — comparison of the model with what the Go harness recorded from the real
    batch processor.  Imports only Model.v (so the correspondence still runs when a proof breaks). *)
-From Verif Require Import Common.Base C17.Model.
+From Verif Require Export Common.Base C17.Model.
 From Coq Require String.
 
 (* ---- script of a processor run (single producer) ------------------------------------------------
@@ -74,9 +74,14 @@ Section Run.
          (filter (fun s => negb (Nat.eqb (length (s_out s)) 0)) shards)).
 End Run.
 
+(* the groups are compared as a set keyed by the tuple (the order in which shards first export is a
+   scheduling accident); the model's tuples are pairwise distinct *)
+Definition tuple_eqb := list_eqb (list_eqb N.eqb).
 Definition obs_eqb {P} (peqb : P -> P -> bool) (a b : run_obs P) : bool :=
   list_eqb N.eqb (fst a) (fst b) &&
-  list_eqb (fun x y => list_eqb (list_eqb N.eqb) (fst x) (fst y) && list_eqb peqb (snd x) (snd y)) (snd a) (snd b).
+  Nat.eqb (length (snd a)) (length (snd b)) &&
+  forallb (fun x => existsb (fun y => tuple_eqb (fst x) (fst y) && list_eqb peqb (snd x) (snd y)) (snd b)) (snd a) &&
+  forallb (fun y => existsb (fun x => tuple_eqb (fst x) (fst y)) (snd a)) (snd b).
 
 Definition split3_of (sig : N) := match sig with 0%N => @split_logs N | _ => @split_traces N end.
 
